@@ -19,6 +19,73 @@ def nonneg2(a, n, m):
     return z3.ForAll([i, j], z3.Implies(z3.And(i >= 0, i < n, j >= 0, j < m), a.at(i, j) >= 0), patterns=[a.at(i, j)])
 
 
+# ------------------------------------------------------------------------------------------ the E-step
+def e_step(ctx, cov_type):
+    """GaussianMixture._e_step from the real source: for mixture weights >= 0 (the M-step's postcondition) it returns an (n, K)
+    array of non-negative responsibilities, each at most 1 (each entry is one non-negative summand of its row total s divided by
+    s + 1e-10); the fallback arm (singular covariance) keeps the same facts.  pdf is the assumed scipy contract (values >= 0, or
+    raises ValueError / LinAlgError)."""
+    info = {}
+    from pyvc.interp import _Outcomes
+    from pyvc.state import Outcome
+
+    def pdf(I, st, args, kw, node):
+        X = st.arr(args[0])
+        a = fresh_arr((X.shape[0],), "real", "pdf")
+        q = z3.Int(fresh_name("q"))
+        st.assume(z3.ForAll([q], a.at(q) >= 0, patterns=[a.at(q)]))
+        out = st.new_arr(a)
+        if st.ghost.get("in_fallback"):
+            return out              # second call, inside the handler: reg_covar * I is positive definite, pdf does not raise
+        bad = st.clone()
+        bad.ghost["in_fallback"] = True
+        bad2 = st.clone()
+        bad2.ghost["in_fallback"] = True
+        return _Outcomes([Outcome("return", st, out), Outcome("raise", bad, ("ValueError", "singular covariance", node.lineno)),
+                          Outcome("raise", bad2, ("LinAlgError", "singular covariance", node.lineno))])
+
+    def setup(I, st):
+        n, d, K = fresh_scalar("int", "n"), fresh_scalar("int", "d"), fresh_scalar("int", "K")
+        st.assume(z3.And(n >= 1, d >= 1, K >= 1))
+        w = fresh_arr((K,), "real", "weights")
+        k = z3.Int(fresh_name("k"))
+        st.assume(z3.ForAll([k], z3.Implies(z3.And(k >= 0, k < K), w.at(k) >= 0), patterns=[w.at(k)]))
+        cov = fresh_arr((K, d, d) if cov_type == "full" else (K, d), "real", "cov")
+        obj = st.new_obj(GM, __module__=CL, n_components=K, covariance_type=cov_type, reg_covar=z3.RealVal("1/1000000"))
+        info.update(n=n, d=d, K=K)
+        return dict(self_val=obj, args=[st.new_arr(fresh_arr((n, d), "real", "X")), st.new_arr(w), st.new_arr(fresh_arr((K, d), "real", "mu")),
+                                        st.new_arr(cov)])
+
+    def inv(v):
+        R = v["responsibilities"]
+        n, K = info["n"], info["K"]
+        i, c = z3.Int(fresh_name("i")), z3.Int(fresh_name("c"))
+        v.state.ghost["in_fallback"] = False
+        return z3.And(to_z3(R.shape[0], "int") == n, to_z3(R.shape[1], "int") == K,
+                      z3.ForAll([i, c], z3.Implies(z3.And(i >= 0, i < n, c >= 0, c < K), R.at(i, c) >= 0)))
+
+    def post(I, o, pre):
+        st = o.state
+        R = st.arr(o.value)
+        n, K = info["n"], info["K"]
+        i, c = z3.Int(fresh_name("i")), z3.Int(fresh_name("c"))
+        rng = z3.And(i >= 0, i < n, c >= 0, c < K)
+        g = [("shape-n-by-K", z3.And(R.ndim == 2, to_z3(R.shape[0], "int") == n, to_z3(R.shape[1], "int") == K) if R.ndim == 2 else False)]
+        # the un-normalised array whose rows were summed, and "entry <= row total" for it (rule with checked premise)
+        raw = [a for (a, ax, P) in st.ghost.get("sumarrs2", []) if ax == 1]
+        if raw:
+            pe, ce = sums.elem_le_rowsum_rule(st, raw[-1])
+            pn, cn = sums.nonneg2_rule(st, raw[-1], 1)
+            g += [("raw-entries-nonnegative:entry<=row-total", pe, ce), ("raw-entries-nonnegative:row-totals>=0", pn, cn)]
+        g += [("responsibilities-nonnegative", z3.Implies(rng, R.at(i, c) >= 0)),
+              ("responsibilities-at-most-one", z3.Implies(rng, R.at(i, c) <= 1))]
+        return g
+    ex = pdf_ext()
+    ex.update({"scipy.stats.multivariate_normal.pdf": pdf, "numpy.eye": np_eye, "numpy.diag": np_diag})
+    ctx.verify(cov_type, CL, f"{GM}._e_step", setup, post, loops={0: LoopSpec(inv, label="components")},
+               registry={(CL, f"{GM}._get_covariance"): "inline"}, extras=ex, replayer="c15_gmm")
+
+
 # ------------------------------------------------------------------------------------------ O1-O3: the M-step
 def m_step(ctx, cov_type):
     info = {}
@@ -655,6 +722,61 @@ def hier_predict_range(ctx, normalize, gmm_ready):
                registry=reg, extras=ex, replayer="c15_gmm")
 
 
+# ------------------------------------------------------------------------------------------ posterior cluster probabilities
+def gaussian_probabilities(ctx, normalize):
+    """HierarchicalGaussianMixture._compute_gaussian_probabilities (the 'full' covariance structure, the only one the sampler
+    configures): for a fitted model (K >= 1 clusters, K centres / covariances / weights) it returns an (n, K) array,
+    or raises when scipy rejects even the fallback covariance — the contract `predict` is checked against."""
+    info = {}
+
+    def h_lse(I, st, args, kw, node):
+        a = st.arr(args[0])
+        if not (a.ndim == 2 and kw.get("axis") in (1, -1) and kw.get("keepdims")):
+            raise Unsupported("logsumexp shape")
+        L = z3.Function(fresh_name("lse"), z3.IntSort(), z3.RealSort())
+        return st.new_arr(Arr((a.shape[0], 1), lambda r, c: L(to_z3(r, "int")), "real"))
+
+    def h_outer(I, st, args, kw, node):
+        a, b = st.arr(args[0]), st.arr(args[1])
+        return st.new_arr(Arr((a.shape[0], b.shape[0]), lambda i, j: to_z3(a.at(i), "real") * to_z3(b.at(j), "real"), "real"))
+
+    def setup(I, st):
+        n, d, K = fresh_scalar("int", "n"), fresh_scalar("int", "d"), fresh_scalar("int", "K")
+        st.assume(z3.And(n >= 1, d >= 1, K >= 1))
+        CF = z3.Function(fresh_name("center"), z3.IntSort(), z3.IntSort(), z3.RealSort())
+        CV = z3.Function(fresh_name("cov"), z3.IntSort(), z3.IntSort(), z3.IntSort(), z3.RealSort())
+        WF = z3.Function(fresh_name("cw"), z3.IntSort(), z3.RealSort())
+        centers = symlist.new_symlist(st, K, lambda k: Arr((d,), lambda j, k=k: CF(to_z3(k, "int"), to_z3(j, "int")), "real"), lens=lambda t: d, kind="array")
+        st.cell(centers)["__uniform_shape__"] = (d,)
+        covs = symlist.new_symlist(st, K, lambda k: Arr((d, d), lambda a, b, k=k: CV(to_z3(k, "int"), to_z3(a, "int"), to_z3(b, "int")), "real"),
+                                   lens=lambda t: d, kind="array")
+        st.cell(covs)["__uniform_shape__"] = (d, d)
+        wts = symlist.new_symlist(st, K, lambda k: WF(to_z3(k, "int")), kind="scalar")
+        kk = z3.Int(fresh_name("k"))
+        st.assume(z3.ForAll([kk], z3.Implies(z3.And(kk >= 0, kk < K), WF(kk) >= 0), patterns=[WF(kk)]))
+        obj = st.new_obj(HGM, __module__=CL, normalize=normalize, verbose=False, n_clusters_=K, cluster_centers_=centers,
+                         cluster_covariances_=covs, cluster_weights_=wts, covariance_type="full",
+                         _data_min=st.new_arr(fresh_arr((d,), "real", "dmin")) if normalize else None,
+                         _data_max=st.new_arr(fresh_arr((d,), "real", "dmax")) if normalize else None)
+        info.update(n=n, K=K)
+        return dict(self_val=obj, args=[st.new_arr(fresh_arr((n, d), "real", "X"))])
+
+    def inv(v):
+        lp = v["log_probabilities"]
+        return z3.And(to_z3(lp.shape[0], "int") == info["n"], to_z3(lp.shape[1], "int") == info["K"])
+
+    def post(I, o, pre):
+        R = o.state.arr(o.value)
+        i, c = z3.Int(fresh_name("i")), z3.Int(fresh_name("c"))
+        # only what `predict` relies on (one row per query point, one column per cluster); C15 makes no statement about the values
+        return [("shape-n-by-K", z3.And(to_z3(R.shape[0], "int") == info["n"], to_z3(R.shape[1], "int") == info["K"]) if R.ndim == 2 else False)]
+    ex = pdf_ext()
+    ex.update({"numpy.eye": np_eye, "numpy.diag": np_diag, "numpy.outer": h_outer, "scipy.special.logsumexp": h_lse})
+    ctx.verify("normalize" if normalize else "raw", CL, f"{HGM}._compute_gaussian_probabilities", setup, post,
+               loops={0: LoopSpec(inv, label="clusters")}, registry={(CL, f"{HGM}._normalize_data"): "inline"}, extras=ex,
+               allowed_raises=("ValueError", "Exception", "LinAlgError"), replayer="c15_gmm")
+
+
 # ------------------------------------------------------------------------------------------ initial responsibilities: no 0/0
 def initial_responsibilities(ctx):
     """The statements of _initialize_parameters between the k-means++ loop and the first M-step, executed with free centres:
@@ -764,6 +886,12 @@ def gm_fit_state(ctx):
 
     def h_mstep(I, st, args, kw, node):
         X = st.arr(args[1])
+        R = st.arr(args[2])
+        i, c = z3.Int(fresh_name("i")), z3.Int(fresh_name("c"))
+        I.oblige(f"call:_m_step:responsibilities-nonnegative@{node.lineno}", st,
+                 z3.And(to_z3(R.shape[0], "int") == to_z3(X.shape[0], "int"), to_z3(R.shape[1], "int") == info["K"],
+                        z3.ForAll([i, c], z3.Implies(z3.And(i >= 0, i < to_z3(R.shape[0], "int"), c >= 0, c < info["K"]), R.at(i, c) >= 0))), node,
+                 note="precondition of the M-step contract: the responsibilities handed over are those an E-step returned")
         out, tok = mstep_out(st, info["K"], X.shape[1], "em")
         return out
 
@@ -773,7 +901,12 @@ def gm_fit_state(ctx):
         toks = [a.prov[1] for a in (W, M, C) if a.prov and a.prov[0] == "mstep"]
         I.oblige(f"call:_e_step:parameters-of-one-M-step@{node.lineno}", st,
                  len(toks) == 3 and z3.And(toks[0] == toks[1], toks[1] == toks[2]), node)
-        return st.new_arr(fresh_arr((X.shape[0], info["K"]), "real", "resp"))
+        R = fresh_arr((X.shape[0], info["K"]), "real", "resp")
+        i, c = z3.Int(fresh_name("i")), z3.Int(fresh_name("c"))
+        # postcondition of _e_step (proved above for weights >= 0: the M-step / initialisation postcondition)
+        st.assume(z3.ForAll([i, c], z3.Implies(z3.And(i >= 0, i < to_z3(X.shape[0], "int"), c >= 0, c < info["K"]),
+                                               z3.And(R.at(i, c) >= 0, R.at(i, c) <= 1)), patterns=[R.at(i, c)]))
+        return st.new_arr(R)
 
     def h_lb(I, st, args, kw, node):
         lb = fresh_scalar("real", "lower_bound")
@@ -915,6 +1048,8 @@ def run(ctx):
     lemma_partition_step(ctx)
     m_step(ctx, "full")
     m_step(ctx, "diag")
+    e_step(ctx, "full")
+    e_step(ctx, "diag")
     ctx.parallel([lambda c: hier_fit(c, True, True), lambda c: hier_fit(c, False, False), lambda c: hier_fit(c, True, False),
                   lambda c: hier_fit(c, False, True)])
     initial_responsibilities(ctx)
@@ -924,14 +1059,15 @@ def run(ctx):
     for nz in (True, False):
         for ready in (True, False):
             hier_predict_range(ctx, nz, ready)
+        gaussian_probabilities(ctx, nz)
     ctx.trust("scipy multivariate_normal.pdf >= 0 / logpdf finite, or raises for a singular covariance (both outcomes explored)",
               "np.argmax/argmin(axis=1): an index in [0, ncols) per row", "np.linalg.norm(axis=2): (n, K) array",
               "L-SUM rules: each statement is machine-checked in Lean/Mathlib over Finset sums (lemmas/Sums.lean; prefix_unique identifies the prefix function with the finite sum); what stays trusted is the transcription of those statements into the z3 axioms/rules of pyvc/theories/sums.py; three-index prefix sums are the definition of np.dot",
               "L-MASK: the label-0 and label-1 positions of one prediction partition the positions",
               "L-PART (machine-checked by z3 as lemma:L-PART/*) is *applied* at the end of the split loop: its premises are obligations at "
               "clusters.pop / clusters.extend, the induction over loop iterations that chains the step lemma is by the loop invariant",
-              "_e_step returns non-negative responsibilities with row sums <= 1 (weights >= 0, pdf >= 0, guard 1e-10): assumed, its body is "
-              "not under contract", "_compute_gaussian_probabilities returns an (n, n_clusters_) array or raises: assumed",
+              "_e_step is under contract (entries in [0, 1]); the stronger 'row sums <= 1' is not proved (not needed by the M-step contract)",
+              "_compute_gaussian_probabilities is under contract ((n, n_clusters_) array or raises) for the 'full' structure",
               "A1 for the M-step algebra; the initial-responsibility obligation is about exact values (exp(0) = 1) and holds in binary64 too")
     ctx.undecided_clauses += [
         "positive semi-definiteness of the full covariances is proved as: symmetric, non-negative diagonal, and entry = sum_i r_i diff_ia diff_ib / (S+1e-10) "
